@@ -869,7 +869,7 @@ class WriteSwitch(Unit):
         return dict(confirmed=False, call='_write_packet switch', observed='')
 
 
-def units(tier):
+def _own_units(tier):
     from . import c12
     # "written to a connection" includes writes from several threads: frames stay contiguous only if every path to
     # the wire holds the write lock (the same lock contracts as C12, claimed here for the merged/split clause)
@@ -882,3 +882,8 @@ def units(tier):
         u.prop, u.name = 'C01', nm
         us.append(u)
     return [WriteFrame(), ReadFrame(), SizeCheck(), Segmentation(), CipherFile(), CipherSocket(), WriteSwitch()] + c12.c01_units() + us
+
+
+def units(tier):
+    from .deps import dependency_units
+    return _own_units(tier) + dependency_units('C01')
